@@ -56,6 +56,11 @@ DESCRIPTIONS.update({
  "C01|request-mismatch|go>go|ct=application/json|in=AnnFlat|": "message with flatten fields as JSON request: a flattened child is lost or altered when the Go server decodes the body the Go client produced",
 })
 
+DESCRIPTIONS.update({
+ "C01|rule-not-enforced|go>go|ct=application/json|in=AnnFlat": "message with flatten fields as JSON request: because the flattened child is lost on decode, a request whose child violates a validation rule is dispatched instead of being rejected",
+ "C01|rule-not-enforced|go>go|ct=application/json|in=AnnDisc": "message with a discriminated oneof as JSON request: because the variant is mis-decoded, a request whose variant violates a validation rule is dispatched instead of being rejected",
+})
+
 def describe(sig):
     best = None
     for k, v in DESCRIPTIONS.items():
